@@ -515,6 +515,15 @@ func SimplifyGrounds(grounds []string) []string {
 // PathSummariesR is PathSummaries with a phi resolver handed to eventOf: resolve(v) replaces a phi by the value it
 // carries on the path being summarised (the edge from the predecessor the path came in by), repeatedly.
 func PathSummariesR(fn *ssa.Function, limit int, eventOf func(in ssa.Instruction, resolve func(ssa.Value) ssa.Value) string) (out []string, ok bool) {
+	return PathSummariesRP(fn, limit, false, eventOf)
+}
+
+// PathSummariesRP is PathSummariesR that, when withPanics is set, also summarises the paths that end in a panic.
+func PathSummariesRP(fn *ssa.Function, limit int, withPanics bool, eventOf func(in ssa.Instruction, resolve func(ssa.Value) ssa.Value) string, condOf ...func(cond ssa.Value, val bool, resolve func(ssa.Value) ssa.Value) string) (out []string, ok bool) {
+	descCond := func(cond ssa.Value, val bool, _ func(ssa.Value) ssa.Value) string { return CondDesc(cond, val) }
+	if len(condOf) > 0 && condOf[0] != nil {
+		descCond = condOf[0]
+	}
 	if len(fn.Blocks) == 0 {
 		return nil, false
 	}
@@ -586,6 +595,23 @@ func PathSummariesR(fn *ssa.Function, limit int, eventOf func(in ssa.Instruction
 			set[strings.Join(ks, " ∧ ")+" ⇒ "+strings.Join(events, " ; ")] = true
 			return
 		case *ssa.Panic:
+			if withPanics {
+				count++
+				if count > limit {
+					ok = false
+					return
+				}
+				m := map[string]bool{}
+				for _, c := range conds {
+					m[c] = true
+				}
+				ks := make([]string, 0, len(m))
+				for k := range m {
+					ks = append(ks, k)
+				}
+				sort.Strings(ks)
+				set[strings.Join(ks, " ∧ ")+" ⇒ "+strings.Join(events, " ; ")] = true
+			}
 			return
 		case *ssa.If:
 			onPath[b] = true
@@ -607,8 +633,8 @@ func PathSummariesR(fn *ssa.Function, limit int, eventOf func(in ssa.Instruction
 					walk(b.Succs[1], b, conds, events)
 				}
 			default:
-				walk(b.Succs[0], b, append(append([]string{}, conds...), CondDesc(cond, !neg)), events)
-				walk(b.Succs[1], b, append(append([]string{}, conds...), CondDesc(cond, neg)), events)
+				walk(b.Succs[0], b, append(append([]string{}, conds...), descCond(cond, !neg, resolve)), events)
+				walk(b.Succs[1], b, append(append([]string{}, conds...), descCond(cond, neg, resolve)), events)
 			}
 			onPath[b] = false
 			return
